@@ -228,7 +228,7 @@ def main():
         print("unknown property %s" % pid)
         sys.exit(2)
     t0 = time.time()
-    rundir = os.path.join(BUILD, "run", pid if os.path.realpath(REPO) == "/repo" else pid + "_scratch_%d" % os.getpid())
+    rundir = os.path.join(BUILD, "run", pid if os.path.realpath(REPO) == "/repo" else pid + "_scratch_%s" % os.environ.get("VERIF_RUN_TAG", str(os.getpid())))
     os.makedirs(rundir, exist_ok=True)
     entry = checks.CHECKS[pid]
     results = [run_harness(pid, spec, tier, rundir) for spec in entry["harnesses"] if tier in spec.get("tiers", ("quick", "thorough"))]
